@@ -159,7 +159,7 @@ func (p *ProjectRunner) runProcess(config *types.ProcessConfig) error {
 		defer p.removeRunningProcess(proc)
 		defer p.waitGroup.Done()
 		verifGate(proc, "spawned")
-		if err = p.waitIfNeeded(proc.procConf); err != nil {
+		if err = p.waitIfNeededOrStopped(proc); err != nil {
 			log.Error().Msgf("Error: %s", err.Error())
 			log.Error().Msgf("Error: process %s won't run", proc.getName())
 			skipped := proc.wontRun()
@@ -187,6 +187,25 @@ func (p *ProjectRunner) runProcessByName(name string) error {
 		return p.runProcess(&processConfig)
 	}
 	return fmt.Errorf("no such process: %s", name)
+}
+
+// waitIfNeededOrStopped waits for the dependencies of a pending instance, but no longer than the
+// instance itself is wanted: once a stop request (StopProcess, restart, scale down, update,
+// shutdown) has ended it, its goroutine finishes instead of staying registered - and counted by
+// Run() - until the dependencies happen to resolve.
+func (p *ProjectRunner) waitIfNeededOrStopped(proc *Process) error {
+	if len(proc.procConf.DependsOn) == 0 {
+		return nil
+	}
+	depsDone := make(chan error, 1)
+	go func() { depsDone <- p.waitIfNeeded(proc.procConf) }()
+	select {
+	case err := <-depsDone:
+		return err
+	case <-proc.procRunCtx.Done():
+		// run() sees the cancelled context and ends the instance without launching anything
+		return nil
+	}
 }
 
 func (p *ProjectRunner) waitIfNeeded(process *types.ProcessConfig) error {
